@@ -139,3 +139,4 @@ fn fixed_overflow<T: 'static>(push: bool, typed: bool, mk: fn() -> T) {
 }
 
 include!("k1_misc.inst.rs");
+
